@@ -1,5 +1,7 @@
 mod common;
+mod c16;
 mod c19;
+mod iso;
 
 use common::*;
 use serde_json::Value;
@@ -9,6 +11,7 @@ type ReplayFn = fn(&Value) -> Vec<Violation>;
 
 fn registry(id: &str) -> Option<(RunFn, ReplayFn)> {
     match id {
+        "C16" => Some((c16::run, c16::replay)),
         "C19" => Some((c19::run, c19::replay)),
         _ => None,
     }
@@ -19,6 +22,20 @@ fn main() {
     if args.len() < 2 {
         eprintln!("usage: vcheck <Cxx> [--tier quick|thorough] | vcheck replay <file>");
         std::process::exit(2);
+    }
+    if args[1] == "worker" {
+        // vcheck worker <prop> <family> <start> <end> <step> <arg>
+        let (prop, fam) = (args[2].as_str(), args[3].as_str());
+        let start: u64 = args[4].parse().unwrap();
+        let end: u64 = args[5].parse().unwrap();
+        let step: u64 = args[6].parse().unwrap();
+        let arg = args.get(7).map(|s| s.as_str()).unwrap_or("");
+        match (prop, fam) {
+            ("C16", "one") => c16::worker_one(arg),
+            ("C16", _) => c16::worker(fam, start, end, step, arg),
+            _ => panic!("unknown worker"),
+        }
+        return;
     }
     if args[1] == "replay" {
         let s = std::fs::read_to_string(&args[2]).expect("cannot read replay file");
